@@ -89,7 +89,7 @@ def _normalise(edges, inits, descs):
     return out, inits
 
 
-def run_family(prop, invs, props, tier, seed, focus=None, signature_prefix="family:"):
+def run_family(prop, invs, props, tier, seed, focus=None, signature_prefix="family:", then_roundtrip=False):
     import time
 
     cinco = common.import_repo()
@@ -113,7 +113,7 @@ def run_family(prop, invs, props, tier, seed, focus=None, signature_prefix="fami
     cfgmachine.write_cfg(cfg, "GFirst", depth, invs, props)
     res = tlc.run("MC_Config.tla", cfg, workers=16, keep=())
     states, transitions = res.distinct, res.generated
-    instance = "MC_Config family MCFamily2 (256 two-key schemas) depth %d" % depth
+    instance = "MC_Config family MCFamily2 (every two-key root schema over the node shapes) depth %d" % depth
     viol = [res] if not res.ok else []
     if not quick:
         cfg3 = os.path.join(d, "mc3.cfg")
@@ -121,7 +121,7 @@ def run_family(prop, invs, props, tier, seed, focus=None, signature_prefix="fami
         res3 = tlc.run("MC_Config.tla", cfg3, workers=16, keep=())
         states += res3.distinct
         transitions += res3.generated
-        instance += " + MCFamily3 (1216 schemas, three keys) depth 1"
+        instance += " + MCFamily3 (three-key root schemas) depth 1"
         if not res3.ok:
             viol.append(res3)
     for r in viol:
@@ -136,12 +136,18 @@ def run_family(prop, invs, props, tier, seed, focus=None, signature_prefix="fami
     adapter = FamilyAdapter(cinco, descs, focus)
     # 2. the complete depth-1 graph of every stride-th schema, replayed on the real classes
     cfgx = os.path.join(d, "export.cfg")
-    cfgmachine.write_cfg(cfgx, fam, 1, export=True)
+    cfgmachine.write_cfg(cfgx, fam, 2 if then_roundtrip else 1, export=True)
     with open(cfgx, "a") as fp:
         fp.write("CONSTRAINT SidSample\n")
+    if then_roundtrip:
+        text = open(cfgx).read().replace("NEXT Next", "NEXT NextThenRoundTrip")
+        with open(cfgx, "w") as fp:
+            fp.write(text)
+        env["FAM_FMT"] = ["json", "yaml", "bson", "xml", "pickle"][seed % 5]
     exp = tlc.run("MC_Config.tla", cfgx, workers=1, keep=("INIT", "EDGE"), env=env)
     edges, inits = _normalise(exp.printed.get("EDGE", []), exp.printed.get("INIT", []), descs)
-    inits = [s for s in inits if s["sid"] % stride == phase]
+    sampled = {e["from"]["sid"] for e in edges}
+    inits = [s for s in inits if s["sid"] in sampled]
     lap("export")
     g = replay.Graph(inits, edges)
     stats, mism = replay.run_graph(adapter, g, seed=seed)
@@ -225,6 +231,6 @@ def run_family(prop, invs, props, tier, seed, focus=None, signature_prefix="fami
     out.assumptions = [
         "generated schema family: roots with two (thorough: also three) keys over %d node shapes; candidate values derived "
         "from each field's kind by ConfigMachine!Gen*; TLC covers every schema of the family, the replay every %d-th "
-        "(phase = seed mod %d), the recorded traces a seeded sample of %d schemas" % (16, stride, stride, len(sids)),
+        "(phase = seed mod %d), the recorded traces a seeded sample of %d schemas" % (21, stride, stride, len(sids)),
     ]
     return out
